@@ -17,8 +17,8 @@ ASSUMPTIONS = ['float32 logits compared within 2e-4 relative to the largest |log
                'steps at which the arg-max margin is below 1e-3 make later steps of that line incomparable (decoding may legitimately branch): skipped from there on',
                'termination is decided on decoding steps: at most W//4 + 2']
 N = {'quick': 40, 'thorough': 3000}
-CLASSES = ['default', 'deep', 'wide', 'eos_early', 'never_ends', 'single_head', 'run_ocr', 'default', 'batch_256', 'long_line']
-REQUIRED = ['batches_of_256_or_more_lines', 'lines_decoded_for_more_than_500_steps', 'models_with_zero_width_space_in_the_alphabet', 'batches', 'cached_vs_uncached', 'cached_vs_teacher_forced', 'fresh_vs_history', 'single_vs_batch_lines', 'cache_calls_checked', 'cross_attention_cache_checked',
+CLASSES = ['default', 'deep', 'wide', 'eos_early', 'never_ends', 'single_head', 'run_ocr', 'default', 'batch_256', 'long_line', 'huge_alphabet']
+REQUIRED = ['models_with_more_than_32767_classes', 'run_ocr_float_batches', 'batches_of_256_or_more_lines', 'lines_decoded_for_more_than_500_steps', 'models_with_zero_width_space_in_the_alphabet', 'batches', 'cached_vs_uncached', 'cached_vs_teacher_forced', 'fresh_vs_history', 'single_vs_batch_lines', 'cache_calls_checked', 'cross_attention_cache_checked',
             'batches_after_different_batch', 'lines_hit_length_cap', 'lines_ended', 'run_ocr_batches', 'run_ocr_history_batches']
 SHARDS = {'quick': 8, 'thorough': 16}
 TIMEOUT = {'quick': 1200, 'thorough': 10800}
@@ -99,8 +99,13 @@ def gen(rng, i, ctx):
     if cls == 'long_line':
         # one line wider than 2000 px that never emits the boundary symbol: more than 500 decoding steps, all key/value caches filled beyond row 500
         case.update(dim=16, dec=1, heads=int(rng.choice([1, 2])), eos_bias=-8.0, batches=[{'n': 1, 'w': int(rng.choice([2048, 2112])), 'seed': int(rng.integers(0, 1 << 30))}, {'n': 2, 'w': 64, 'seed': int(rng.integers(0, 1 << 30))}])
+    if cls == 'huge_alphabet':
+        # more classes than a 16-bit index can hold (a CJK-scale alphabet); random weights reach every class
+        case.update(dim=16, dec=1, heads=1, batches=[{'n': int(rng.integers(1, 4)), 'w': int(rng.choice([64, 128])), 'seed': int(rng.integers(0, 1 << 30))} for _ in range(2)])
     # every third model has an alphabet that itself contains U+200B as an ordinary character (the boundary symbol is the class AFTER the alphabet, whatever the alphabet holds)
     case['chars'] = 'ab\u200bcdef' if case['model_seed'] % 3 == 0 else 'abcdef'
+    if cls == 'huge_alphabet':
+        case['chars'] = 'cjk-40000'
     return case
 
 
@@ -124,8 +129,16 @@ def first_ambiguous_step(l):
     return out
 
 
+def alphabet(case):
+    c = case.get('chars', 'abcdef')
+    return ''.join(chr(0x3400 + k) for k in range(40000)) if c == 'cjk-40000' else c
+
+
 def check(case, mon, ctx):
     torch = ctx.torch
+    case = dict(case, chars=alphabet(case))
+    if len(case['chars']) > 32767:
+        mon.count('models_with_more_than_32767_classes')
     eng = ctx.stubs.make_transformer_engine(ctx.tmpdir + '/teng', case['model_seed'], H=32, dim=case['dim'], heads=case['heads'], dff=2 * case['dim'], enc=1, dec=case['dec'], eos_bias=case['eos_bias'], chars=case.get('chars', 'abcdef'))
     fresh = copy.deepcopy(eng.net)
     nsym = len(eng.characters)
@@ -233,6 +246,23 @@ def check(case, mon, ctx):
             if dd > TOL_REL * max(5.0, float(np.abs(lg_f).max(initial=0))):
                 mon.violation('independent-of-earlier-batches', dict(w, via='run_ocr on a long-lived engine vs a freshly loaded engine', max_abs_diff=dd, steps_compared=nst,
                               previous_batches=[(q['n'], q['w']) for q in case['batches'][:bi]]))
+        if case['cls'] == 'run_ocr' and b['w'] < 1088:
+            # run_ocr on a floating-point batch with non-integer pixel values (an image that went through interpolation): the scores are those of the
+            # same pixels padded to 1088 columns by the harness
+            xf = (x.astype(np.float32) * 0.731 + 0.37)
+            lines_f = np.ascontiguousarray(np.transpose(xf, (0, 2, 3, 1)))
+            pad = np.zeros((xf.shape[0], 3, 32, 1088), dtype=np.float32)
+            s0 = (1088 - xf.shape[3]) // 2
+            pad[:, :, :, s0:s0 + xf.shape[3]] = xf
+            with torch.no_grad(), contextlib.redirect_stdout(io.StringIO()):
+                dec_r, lg_r = eng.run_ocr(lines_f.copy())
+                _, lg_p = eng.transcribe_batch(pad.copy(), is_cached=True)
+            lg_p = lg_p.cpu().numpy()
+            mon.count('run_ocr_float_batches')
+            nst = min(lg_r.shape[1], lg_p.shape[1], min(first_ambiguous_step(torch.from_numpy(lg_p))))
+            dd = float(np.abs(lg_r[:, :nst] - lg_p[:, :nst]).max(initial=0))
+            if dd > TOL_REL * max(5.0, float(np.abs(lg_p).max(initial=0))):
+                mon.violation('cached-equals-teacher-forced-forward', dict(w, via='run_ocr on a float batch vs transcribe_batch on the same pixels padded by the harness', max_abs_diff=dd, steps_compared=nst))
         if case['cls'] == 'run_ocr' and bi == 0:
             lines = np.ascontiguousarray(np.transpose(x, (0, 2, 3, 1)))
             with torch.no_grad(), contextlib.redirect_stdout(io.StringIO()):
